@@ -21,6 +21,8 @@ if [ $rc -ne 0 ]; then
   tail -n 30 "$here/harness/build.log"
   exit 2
 fi
+# C09: aborts cannot be caught in-process; the engine journals the running case per shard
+[ "$id" = "C09" ] && export VERIF_JOURNAL=1 && rm -f "$here/replays/$id-journal-"*.json
 "$here/harness/target/release/verif" check "$id" --tier "$tier"
 rc=$?
 # E2 (thorough tier only): bounded libFuzzer campaigns for the properties over byte strings / histories
@@ -43,8 +45,8 @@ if [ $rc -eq 0 ] && [ "$tier" = "thorough" ] && [ -z "${VERIF_NO_E2:-}" ]; then
 fi
 if [ $rc -ge 128 ]; then
   # the process died from a signal: abort / segfault inside the code under test
-  j="$here/replays/$id-journal.json"
-  if { [ $rc -eq 134 ] || [ $rc -eq 139 ]; } && [ -s "$j" ]; then
+  j="$(ls -t "$here/replays/$id-journal-"*.json 2>/dev/null | head -1)"
+  if { [ $rc -eq 134 ] || [ $rc -eq 139 ] || [ $rc -eq 132 ] || [ $rc -eq 136 ]; } && [ -n "$j" ] && [ -s "$j" ]; then
     echo "VIOLATION property=$id replay=$j"
     exit 1
   fi
